@@ -1,6 +1,826 @@
 package main
 
-type Scenario struct{}
+import (
+	"errors"
+	"fmt"
+	"io"
+	"os"
+	"reflect"
+	"sort"
+	"strconv"
+	"strings"
+	"time"
 
-func runScenario(sc *Scenario) interface{} { return nil }
+	flags "github.com/jessevdk/go-flags"
+)
 
+// ---------------------------------------------------------------- wire types
+
+type TypeSpec struct {
+	K     string      `json:"k,omitempty"`
+	Ptr   string      `json:"ptr,omitempty"`
+	Slice *TypeSpec   `json:"slice,omitempty"`
+	Map   []string    `json:"map,omitempty"`
+	Func  *FuncSpec   `json:"func,omitempty"`
+}
+
+type FuncSpec struct {
+	Arg string `json:"arg"` // "" = no argument
+	Err bool   `json:"err"`
+}
+
+type StructSpec struct {
+	Ptr    bool        `json:"ptr"`
+	Nil    bool        `json:"nil"`
+	Fields []FieldSpec `json:"fields"`
+	Sid    int         `json:"sid"`
+}
+
+type FieldSpec struct {
+	Name     string      `json:"name"`
+	Exported bool        `json:"exported"`
+	Tag      string      `json:"tag"`
+	Type     *TypeSpec   `json:"type,omitempty"`
+	Fid      int         `json:"fid"`
+	Struct   *StructSpec `json:"struct,omitempty"`
+}
+
+type ValueSpec struct {
+	B  *bool          `json:"b,omitempty"`
+	I  *string        `json:"i,omitempty"`
+	S  *string        `json:"s,omitempty"`
+	F  *string        `json:"f,omitempty"`
+	P  *PtrSpec       `json:"p,omitempty"`
+	L  *ListSpec      `json:"l,omitempty"`
+	M  *MapSpec       `json:"m,omitempty"`
+	Fn *FnSpec        `json:"fn,omitempty"`
+}
+type PtrSpec struct {
+	V *ValueSpec `json:"v"`
+}
+type ListSpec struct {
+	Nil bool        `json:"nil"`
+	V   []ValueSpec `json:"v"`
+}
+type MapSpec struct {
+	Nil bool           `json:"nil"`
+	V   [][2]ValueSpec `json:"v"`
+}
+type FnSpec struct {
+	Nil   bool `json:"nil"`
+	Fails bool `json:"fails"`
+}
+
+type OptsSpec struct {
+	Help      bool `json:"help"`
+	PassDD    bool `json:"passdd"`
+	Ignore    bool `json:"ignore"`
+	Print     bool `json:"print"`
+	PassAfter bool `json:"passafter"`
+}
+
+type CfgSpec struct {
+	Name       string      `json:"name"`
+	Opts       OptsSpec    `json:"opts"`
+	NsDelim    string      `json:"nsdelim"`
+	EnvDelim   string      `json:"envdelim"`
+	Handler    string      `json:"handler"`
+	CmdHandler bool        `json:"cmdhandler"`
+	Usage      string      `json:"usage"`
+	Env        [][2]string `json:"env"`
+	Cols       int         `json:"cols"`
+	SubOpt     bool        `json:"subopt"`
+	ShortDesc  string      `json:"shortdesc"`
+	LongDesc   string      `json:"longdesc"`
+}
+
+type ExecSpec struct {
+	Err *string `json:"err"`
+}
+
+type AttachSpec struct {
+	Kind    string      `json:"kind"`
+	Path    []int       `json:"path"`
+	Name    string      `json:"name"`
+	Short   string      `json:"short"`
+	Long    string      `json:"long"`
+	Fields  []FieldSpec `json:"fields"`
+	Ns      string      `json:"ns"`
+	EnvNs   string      `json:"envns"`
+	Hidden  bool        `json:"hidden"`
+	Exec    *ExecSpec   `json:"exec"`
+	Usage   *string     `json:"usage"`
+	Aliases []string    `json:"aliases"`
+	SubOpt  bool        `json:"subopt"`
+}
+
+type IniOpSpec struct {
+	Text       string `json:"text"`
+	AsDefaults bool   `json:"asdefaults"`
+}
+
+type OpSpec struct {
+	Op       string     `json:"op"`
+	Args     []string   `json:"args"`
+	Ini      *IniOpSpec `json:"ini,omitempty"`
+	IniOpts  int        `json:"iniopts"`
+	Complete string     `json:"complete"`
+}
+
+type Scenario struct {
+	Cfg    CfgSpec              `json:"cfg"`
+	Data   []FieldSpec          `json:"data"`
+	HasData bool                `json:"hasdata"`
+	Attach []AttachSpec         `json:"attach"`
+	Init   map[string]ValueSpec `json:"init"`
+	Ops    []OpSpec             `json:"ops"`
+	Repeat int                  `json:"repeat"`
+}
+
+// ---------------------------------------------------------------- harness-defined types
+
+// Custom implements Unmarshaler (pointer receiver) and Marshaler (value receiver).
+type Custom string
+
+func (c *Custom) UnmarshalFlag(v string) error {
+	if strings.HasPrefix(v, "!") {
+		return errors.New("custom: rejected " + v)
+	}
+	*c = Custom("u:" + v)
+	return nil
+}
+
+func (c Custom) MarshalFlag() (string, error) {
+	return "m:" + string(c), nil
+}
+
+// Comp implements Completer (pointer receiver); otherwise a plain string.
+type Comp string
+
+var compWords = []string{"alpha", "alpine", "beta", "be ta", "gamma", "-dash", "--ddash"}
+
+func (c *Comp) Complete(match string) []flags.Completion {
+	var ret []flags.Completion
+	for _, w := range compWords {
+		if strings.HasPrefix(w, match) {
+			ret = append(ret, flags.Completion{Item: w, Description: "desc " + w})
+		}
+	}
+	return ret
+}
+
+// ExecCmd is the data of an executable command added with AddCommand.
+type ExecCmd struct {
+	run *runner
+	id  string
+	err *string
+}
+
+func (e *ExecCmd) Execute(args []string) error {
+	e.run.execLog = append(e.run.execLog, "E:"+e.id+":"+hexList(args))
+	if e.err != nil {
+		return errors.New(*e.err)
+	}
+	return nil
+}
+
+// ExecUsageCmd additionally implements Usage.
+type ExecUsageCmd struct {
+	ExecCmd
+	usage string
+}
+
+func (e *ExecUsageCmd) Usage() string { return e.usage }
+
+// UsageOnly implements Usage but not Commander.
+type UsageOnly struct {
+	usage string
+}
+
+func (e *UsageOnly) Usage() string { return e.usage }
+
+// ---------------------------------------------------------------- type construction
+
+func kindType(k string) reflect.Type {
+	switch k {
+	case "bool":
+		return reflect.TypeOf(false)
+	case "int":
+		return reflect.TypeOf(int(0))
+	case "int8":
+		return reflect.TypeOf(int8(0))
+	case "int16":
+		return reflect.TypeOf(int16(0))
+	case "int32":
+		return reflect.TypeOf(int32(0))
+	case "int64":
+		return reflect.TypeOf(int64(0))
+	case "uint":
+		return reflect.TypeOf(uint(0))
+	case "uint8":
+		return reflect.TypeOf(uint8(0))
+	case "uint16":
+		return reflect.TypeOf(uint16(0))
+	case "uint32":
+		return reflect.TypeOf(uint32(0))
+	case "uint64":
+		return reflect.TypeOf(uint64(0))
+	case "float32":
+		return reflect.TypeOf(float32(0))
+	case "float64":
+		return reflect.TypeOf(float64(0))
+	case "string":
+		return reflect.TypeOf("")
+	case "duration":
+		return reflect.TypeOf(time.Duration(0))
+	case "custom":
+		return reflect.TypeOf(Custom(""))
+	case "comp":
+		return reflect.TypeOf(Comp(""))
+	}
+	panic("harness: unknown kind " + k)
+}
+
+var errorType = reflect.TypeOf((*error)(nil)).Elem()
+
+func buildType(t *TypeSpec) reflect.Type {
+	switch {
+	case t.K != "":
+		return kindType(t.K)
+	case t.Ptr != "":
+		return reflect.PtrTo(kindType(t.Ptr))
+	case t.Slice != nil:
+		return reflect.SliceOf(buildType(t.Slice))
+	case t.Map != nil:
+		return reflect.MapOf(kindType(t.Map[0]), kindType(t.Map[1]))
+	case t.Func != nil:
+		var in, out []reflect.Type
+		if t.Func.Arg != "" {
+			in = []reflect.Type{kindType(t.Func.Arg)}
+		}
+		if t.Func.Err {
+			out = []reflect.Type{errorType}
+		}
+		return reflect.FuncOf(in, out, false)
+	}
+	panic("harness: bad type spec")
+}
+
+func buildStruct(fields []FieldSpec) reflect.Type {
+	sf := make([]reflect.StructField, 0, len(fields))
+	for _, f := range fields {
+		var tp reflect.Type
+		if f.Struct != nil {
+			tp = buildStruct(f.Struct.Fields)
+			if f.Struct.Ptr {
+				tp = reflect.PtrTo(tp)
+			}
+		} else {
+			tp = buildType(f.Type)
+		}
+		x := reflect.StructField{Name: l1dec(f.Name), Type: tp, Tag: reflect.StructTag(l1dec(f.Tag))}
+		if !f.Exported {
+			x.PkgPath = "main"
+		}
+		sf = append(sf, x)
+	}
+	return reflect.StructOf(sf)
+}
+
+// ---------------------------------------------------------------- runner
+
+type leaf struct {
+	fid  int
+	root reflect.Value // addressable struct value
+	path []int
+	spec *TypeSpec
+}
+
+type structRef struct {
+	sid  int
+	root reflect.Value
+	path []int
+	nil0 bool
+}
+
+type runner struct {
+	sc       *Scenario
+	leaves   []leaf
+	structs  []structRef
+	callLog  []string
+	execLog  []string
+	unkLog   []string
+	cmdIDs   map[flags.Commander]string
+}
+
+func hexList(a []string) string {
+	if a == nil {
+		return "nil"
+	}
+	parts := make([]string, len(a))
+	for i, s := range a {
+		parts[i] = hexs(s)
+	}
+	return "[" + strings.Join(parts, ",") + "]"
+}
+
+func (r *runner) mkValue(tp reflect.Type, v *ValueSpec, fid int, ts *TypeSpec) reflect.Value {
+	out := reflect.New(tp).Elem()
+	switch {
+	case v.B != nil:
+		out.SetBool(*v.B)
+	case v.I != nil:
+		switch tp.Kind() {
+		case reflect.Uint, reflect.Uint8, reflect.Uint16, reflect.Uint32, reflect.Uint64:
+			n, _ := strconv.ParseUint(*v.I, 10, 64)
+			out.SetUint(n)
+		default:
+			n, _ := strconv.ParseInt(*v.I, 10, 64)
+			out.SetInt(n)
+		}
+	case v.S != nil:
+		out.SetString(l1dec(*v.S))
+	case v.F != nil:
+		f, _ := strconv.ParseFloat(l1dec(*v.F), tp.Bits())
+		out.SetFloat(f)
+	case v.P != nil:
+		if v.P.V != nil {
+			p := reflect.New(tp.Elem())
+			p.Elem().Set(r.mkValue(tp.Elem(), v.P.V, fid, nil))
+			out.Set(p)
+		}
+	case v.L != nil:
+		if !v.L.Nil {
+			s := reflect.MakeSlice(tp, 0, len(v.L.V))
+			for i := range v.L.V {
+				s = reflect.Append(s, r.mkValue(tp.Elem(), &v.L.V[i], fid, nil))
+			}
+			out.Set(s)
+		}
+	case v.M != nil:
+		if !v.M.Nil {
+			m := reflect.MakeMap(tp)
+			for i := range v.M.V {
+				m.SetMapIndex(r.mkValue(tp.Key(), &v.M.V[i][0], fid, nil), r.mkValue(tp.Elem(), &v.M.V[i][1], fid, nil))
+			}
+			out.Set(m)
+		}
+	case v.Fn != nil:
+		if !v.Fn.Nil {
+			fails := v.Fn.Fails
+			hasErr := tp.NumOut() == 1
+			karg := ""
+			if ts != nil && ts.Func != nil {
+				karg = ts.Func.Arg
+			}
+			fn := reflect.MakeFunc(tp, func(args []reflect.Value) []reflect.Value {
+				entry := fmt.Sprintf("%d:", fid)
+				if len(args) == 0 {
+					entry += "nil"
+				} else {
+					entry += renderValue(args[0], &TypeSpec{K: karg})
+				}
+				r.callLog = append(r.callLog, entry)
+				if hasErr {
+					ev := reflect.New(errorType).Elem()
+					if fails {
+						ev.Set(reflect.ValueOf(errors.New("callback failed")))
+					}
+					return []reflect.Value{ev}
+				}
+				return nil
+			})
+			out.Set(fn)
+		}
+	}
+	return out
+}
+
+// instantiate walks the struct spec, sets initial values and records leaves.
+func (r *runner) instantiate(root reflect.Value, cur reflect.Value, fields []FieldSpec, path []int, reachable bool) {
+	for i := range fields {
+		f := &fields[i]
+		p := append(append([]int{}, path...), i)
+		if f.Struct != nil {
+			r.structs = append(r.structs, structRef{sid: f.Struct.Sid, root: root, path: p, nil0: f.Struct.Ptr && f.Struct.Nil})
+			if f.Struct.Ptr {
+				if f.Struct.Nil || !reachable {
+					r.instantiate(root, reflect.Value{}, f.Struct.Fields, p, false)
+				} else {
+					fv := cur.Field(i)
+					if f.Exported {
+						fv.Set(reflect.New(fv.Type().Elem()))
+						r.instantiate(root, fv.Elem(), f.Struct.Fields, p, true)
+					} else {
+						r.instantiate(root, reflect.Value{}, f.Struct.Fields, p, false)
+					}
+				}
+			} else if reachable {
+				r.instantiate(root, cur.Field(i), f.Struct.Fields, p, true)
+			} else {
+				r.instantiate(root, reflect.Value{}, f.Struct.Fields, p, false)
+			}
+			continue
+		}
+		r.leaves = append(r.leaves, leaf{fid: f.Fid, root: root, path: p, spec: f.Type})
+		if !reachable || !f.Exported {
+			continue
+		}
+		if v, ok := r.sc.Init[strconv.Itoa(f.Fid)]; ok {
+			fv := cur.Field(i)
+			fv.Set(r.mkValue(fv.Type(), &v, f.Fid, f.Type))
+		}
+	}
+}
+
+// resolve follows a field-index path from root, through pointers; ok=false when a nil pointer blocks it.
+func resolve(root reflect.Value, path []int) (reflect.Value, bool) {
+	cur := root
+	for _, i := range path {
+		if cur.Kind() == reflect.Ptr {
+			if cur.IsNil() {
+				return reflect.Value{}, false
+			}
+			cur = cur.Elem()
+		}
+		cur = cur.Field(i)
+	}
+	return cur, true
+}
+
+func renderValue(v reflect.Value, ts *TypeSpec) string {
+	switch v.Kind() {
+	case reflect.Bool:
+		if v.Bool() {
+			return "b1"
+		}
+		return "b0"
+	case reflect.Int, reflect.Int8, reflect.Int16, reflect.Int32, reflect.Int64:
+		return "i" + strconv.FormatInt(v.Int(), 10)
+	case reflect.Uint, reflect.Uint8, reflect.Uint16, reflect.Uint32, reflect.Uint64:
+		return "i" + strconv.FormatUint(v.Uint(), 10)
+	case reflect.Float32, reflect.Float64:
+		return "f" + hexs(strconv.FormatFloat(v.Float(), 'g', -1, v.Type().Bits()))
+	case reflect.String:
+		return "s" + hexs(v.String())
+	case reflect.Ptr:
+		if v.IsNil() {
+			return "pn"
+		}
+		return "p(" + renderValue(v.Elem(), nil) + ")"
+	case reflect.Slice:
+		if v.IsNil() {
+			return "ln"
+		}
+		parts := make([]string, v.Len())
+		for i := 0; i < v.Len(); i++ {
+			parts[i] = renderValue(v.Index(i), nil)
+		}
+		return "l[" + strings.Join(parts, ",") + "]"
+	case reflect.Map:
+		if v.IsNil() {
+			return "mn"
+		}
+		parts := make([]string, 0, v.Len())
+		for _, k := range v.MapKeys() {
+			parts = append(parts, renderValue(k, nil)+">"+renderValue(v.MapIndex(k), nil))
+		}
+		sort.Strings(parts)
+		return "m{" + strings.Join(parts, ",") + "}"
+	case reflect.Func:
+		if v.IsNil() {
+			return "Fn"
+		}
+		return "F"
+	}
+	return "?"
+}
+
+type OpResult struct {
+	Op       string   `json:"op"`
+	Panic    string   `json:"panic"`
+	Err      string   `json:"err"`
+	Ret      string   `json:"ret"`
+	Vals     string   `json:"vals"`
+	Active   string   `json:"active"`
+	Calls    string   `json:"calls"`
+	Exec     string   `json:"exec"`
+	Unknown  string   `json:"unknown"`
+	Out      string   `json:"out"`
+	Attached string   `json:"attached"`
+	Items    string   `json:"items,omitempty"`
+	Bytes    string   `json:"bytes,omitempty"`
+	Model    string   `json:"model,omitempty"`
+}
+
+type ScenarioResult struct {
+	Setup string     `json:"setup"`
+	Ops   []OpResult `json:"ops"`
+	Fatal string     `json:"fatal,omitempty"`
+}
+
+func renderErr(err error) string {
+	if err == nil {
+		return "nil"
+	}
+	switch e := err.(type) {
+	case *flags.Error:
+		return fmt.Sprintf("F:%d:%s", e.Type, hexs(e.Message))
+	case *flags.IniError:
+		return fmt.Sprintf("I:%d:%s", e.LineNumber, hexs(e.Message))
+	}
+	return "X:" + hexs(err.Error())
+}
+
+func (r *runner) observeVals() (string, string) {
+	parts := make([]string, 0, len(r.leaves))
+	for _, l := range r.leaves {
+		v, ok := resolve(l.root, l.path)
+		if !ok {
+			continue
+		}
+		parts = append(parts, fmt.Sprintf("%d:%s", l.fid, renderValue(v, l.spec)))
+	}
+	var att []string
+	for _, s := range r.structs {
+		if !s.nil0 {
+			continue
+		}
+		v, ok := resolve(s.root, s.path)
+		if ok && v.Kind() == reflect.Ptr && !v.IsNil() {
+			att = append(att, strconv.Itoa(s.sid))
+		}
+	}
+	sort.Strings(att)
+	return strings.Join(parts, ";"), strings.Join(att, ",")
+}
+
+func activeChain(p *flags.Parser) string {
+	var parts []string
+	c := p.Command
+	for c.Active != nil {
+		idx := -1
+		for i, cc := range c.Commands() {
+			if cc == c.Active {
+				idx = i
+			}
+		}
+		parts = append(parts, strconv.Itoa(idx))
+		c = c.Active
+	}
+	return strings.Join(parts, ".")
+}
+
+func cmdAt(p *flags.Parser, path []int) *flags.Command {
+	c := p.Command
+	for _, i := range path {
+		c = c.Commands()[i]
+	}
+	return c
+}
+
+func pathID(path []int) string {
+	parts := make([]string, len(path))
+	for i, x := range path {
+		parts[i] = strconv.Itoa(x)
+	}
+	return strings.Join(parts, ".")
+}
+
+// capture redirects os.Stdout/os.Stderr while f runs.
+func capture(f func()) (string, string) {
+	oldOut, oldErr := os.Stdout, os.Stderr
+	ro, wo, _ := os.Pipe()
+	re, we, _ := os.Pipe()
+	os.Stdout, os.Stderr = wo, we
+	outc := make(chan string)
+	errc := make(chan string)
+	go func() { b, _ := io.ReadAll(ro); outc <- string(b) }()
+	go func() { b, _ := io.ReadAll(re); errc <- string(b) }()
+	func() {
+		defer func() {
+			wo.Close()
+			we.Close()
+			os.Stdout, os.Stderr = oldOut, oldErr
+		}()
+		f()
+	}()
+	so, se := <-outc, <-errc
+	ro.Close()
+	re.Close()
+	return so, se
+}
+
+func (r *runner) newData(fields []FieldSpec) (interface{}, reflect.Value) {
+	tp := buildStruct(fields)
+	ptr := reflect.New(tp)
+	r.instantiate(ptr.Elem(), ptr.Elem(), fields, nil, true)
+	return ptr.Interface(), ptr.Elem()
+}
+
+func runScenario(sc *Scenario) (res *ScenarioResult) {
+	res = &ScenarioResult{Setup: "nil"}
+	defer func() {
+		if x := recover(); x != nil {
+			res.Fatal = fmt.Sprintf("harness panic during setup: %v", x)
+		}
+	}()
+	r := &runner{sc: sc, cmdIDs: map[flags.Commander]string{}}
+
+	for _, kv := range sc.Cfg.Env {
+		os.Setenv(l1dec(kv[0]), l1dec(kv[1]))
+	}
+	defer func() {
+		for _, kv := range sc.Cfg.Env {
+			os.Unsetenv(l1dec(kv[0]))
+		}
+	}()
+
+	var opts flags.Options
+	if sc.Cfg.Opts.Help {
+		opts |= flags.HelpFlag
+	}
+	if sc.Cfg.Opts.PassDD {
+		opts |= flags.PassDoubleDash
+	}
+	if sc.Cfg.Opts.Ignore {
+		opts |= flags.IgnoreUnknown
+	}
+	if sc.Cfg.Opts.Print {
+		opts |= flags.PrintErrors
+	}
+	if sc.Cfg.Opts.PassAfter {
+		opts |= flags.PassAfterNonOption
+	}
+
+	oldArg0 := os.Args[0]
+	os.Args[0] = l1dec(sc.Cfg.Name)
+	var p *flags.Parser
+	var setupPanic interface{}
+	func() {
+		defer func() { setupPanic = recover() }()
+		if sc.HasData {
+			data, _ := r.newData(sc.Data)
+			p = flags.NewParser(data, opts)
+		} else {
+			p = flags.NewParser(nil, opts)
+		}
+	}()
+	os.Args[0] = oldArg0
+	if setupPanic != nil {
+		res.Setup = "PANIC"
+		return res
+	}
+	p.NamespaceDelimiter = l1dec(sc.Cfg.NsDelim)
+	p.EnvNamespaceDelimiter = l1dec(sc.Cfg.EnvDelim)
+	p.Usage = l1dec(sc.Cfg.Usage)
+	p.SubcommandsOptional = sc.Cfg.SubOpt
+	p.ShortDescription = l1dec(sc.Cfg.ShortDesc)
+	p.LongDescription = l1dec(sc.Cfg.LongDesc)
+
+	switch sc.Cfg.Handler {
+	case "identity", "dropnext", "error":
+		kind := sc.Cfg.Handler
+		p.UnknownOptionHandler = func(option string, arg flags.SplitArgument, args []string) ([]string, error) {
+			v, ok := arg.Value()
+			as := "nil"
+			if ok {
+				as = hexs(v)
+			}
+			r.unkLog = append(r.unkLog, hexs(option)+":"+as+":"+hexList(args))
+			switch kind {
+			case "dropnext":
+				if len(args) > 0 {
+					return args[1:], nil
+				}
+				return args, nil
+			case "error":
+				return nil, errors.New("handler error: " + option)
+			}
+			return args, nil
+		}
+	}
+	if sc.Cfg.CmdHandler {
+		p.CommandHandler = func(cmd flags.Commander, args []string) error {
+			if cmd == nil {
+				r.execLog = append(r.execLog, "H:nil:"+hexList(args))
+				return nil
+			}
+			id := "?"
+			var cerr *string
+			switch c := cmd.(type) {
+			case *ExecCmd:
+				id, cerr = c.id, c.err
+			case *ExecUsageCmd:
+				id, cerr = c.id, c.err
+			}
+			r.execLog = append(r.execLog, "H:"+id+":"+hexList(args))
+			if cerr != nil {
+				return errors.New(*cerr)
+			}
+			return nil
+		}
+	}
+
+	// attach operations; the first error ends the scenario
+	for ai := range sc.Attach {
+		a := &sc.Attach[ai]
+		var err error
+		var pan interface{}
+		func() {
+			defer func() { pan = recover() }()
+			target := cmdAt(p, a.Path)
+			if a.Kind == "group" {
+				data, _ := r.newData(a.Fields)
+				var g *flags.Group
+				g, err = target.AddGroup(l1dec(a.Short), l1dec(a.Long), data)
+				if err == nil {
+					g.Namespace = l1dec(a.Ns)
+					g.EnvNamespace = l1dec(a.EnvNs)
+					g.Hidden = a.Hidden
+				}
+			} else {
+				var data interface{}
+				newPath := append(append([]int{}, a.Path...), len(target.Commands()))
+				if a.Exec != nil {
+					var e *string
+					if a.Exec.Err != nil {
+						x := l1dec(*a.Exec.Err)
+						e = &x
+					}
+					if a.Usage != nil {
+						data = &ExecUsageCmd{ExecCmd: ExecCmd{run: r, id: pathID(newPath), err: e}, usage: l1dec(*a.Usage)}
+					} else {
+						data = &ExecCmd{run: r, id: pathID(newPath), err: e}
+					}
+				} else if a.Usage != nil && len(a.Fields) == 0 {
+					data = &UsageOnly{usage: l1dec(*a.Usage)}
+				} else {
+					data, _ = r.newData(a.Fields)
+				}
+				var c *flags.Command
+				c, err = target.AddCommand(l1dec(a.Name), l1dec(a.Short), l1dec(a.Long), data)
+				if err == nil {
+					c.Aliases = l1decs(a.Aliases)
+					if len(a.Aliases) == 0 {
+						c.Aliases = nil
+					}
+					c.Hidden = a.Hidden
+					c.SubcommandsOptional = a.SubOpt
+				}
+			}
+		}()
+		if pan != nil {
+			res.Setup = fmt.Sprintf("PANIC@%d", ai)
+			return res
+		}
+		if err != nil {
+			res.Setup = fmt.Sprintf("%d:%s", ai, renderErr(err))
+			return res
+		}
+	}
+
+	for oi := range sc.Ops {
+		op := &sc.Ops[oi]
+		or := OpResult{Op: op.Op}
+		r.callLog, r.execLog, r.unkLog = nil, nil, nil
+		var so, se string
+		func() {
+			defer func() {
+				if x := recover(); x != nil {
+					or.Panic = fmt.Sprintf("%v", x)
+				}
+			}()
+			so, se = capture(func() { r.runOp(p, op, &or) })
+		}()
+		or.Vals, or.Attached = r.observeVals()
+		or.Active = activeChain(p)
+		or.Calls = strings.Join(r.callLog, ";")
+		or.Exec = strings.Join(r.execLog, ";")
+		or.Unknown = strings.Join(r.unkLog, ";")
+		var outs []string
+		if so != "" {
+			outs = append(outs, "1:"+hexs(so))
+		}
+		if se != "" {
+			outs = append(outs, "2:"+hexs(se))
+		}
+		or.Out = strings.Join(outs, ";")
+		res.Ops = append(res.Ops, or)
+		if or.Panic != "" {
+			break
+		}
+	}
+	return res
+}
+
+func (r *runner) runOp(p *flags.Parser, op *OpSpec, or *OpResult) {
+	switch op.Op {
+	case "parse":
+		ret, err := p.ParseArgs(l1decs(op.Args))
+		or.Err = renderErr(err)
+		or.Ret = hexList(ret)
+	default:
+		r.runOpMore(p, op, or)
+	}
+}
